@@ -78,6 +78,8 @@ def extract_facts() -> dict[str, Any]:
         "tc_axis": "TcUnknown",
         "ptc_axis": "PtcUnknown",
         "dups": "DupUnknown",
+        "view_policy": "ViewUnknown",
+        "row_update": "RowUnknown",
         "entry_points": [],
     }
     trees: dict[str, ast.Module] = {}
@@ -153,7 +155,19 @@ def extract_facts() -> dict[str, Any]:
     facts["entry_points"] = [
         _entry_point(trees[f], qual, table, epn, checks[f"{f}::{qual}"], cache_checks[f"{f}::{qual}"]) for f, qual, table, epn in ENTRY_POINTS
     ]
-    if all(same(k) for k in SHAPES if k.startswith("simulation.py::")):
+    # simulation.py: Simulation.default / .variables / .fluxes of the recorded shape; _compute_args in one of two accepted
+    # forms: it leaves the model at the last segment's parameters (ViewLeaves, the tree before 4167248), or it puts back the
+    # parameter values it found (`in_force = self._parameters_in_force()` ... `finally: update_parameters(in_force)`, helper
+    # of the recorded shape: ViewRestores).  What a view SHOWS is the same in both forms (theorem C09_view_policy_irrelevant).
+    sim_fixed = all(same(k) for k in SHAPES if k.startswith("simulation.py::") and "#" not in k and not k.endswith("._compute_args"))
+    ca = _norm_fn(trees["simulation.py"], "Simulation._compute_args")
+    helper = _norm_fn(trees["simulation.py"], "Simulation._parameters_in_force")
+    if ca == SHAPES["simulation.py::Simulation._compute_args"] and helper is None:
+        facts["view_policy"] = "ViewLeaves"
+    elif (ca == SHAPES["simulation.py::Simulation._compute_args#restoring"]
+          and helper == SHAPES["simulation.py::Simulation._parameters_in_force#restoring"]):
+        facts["view_policy"] = "ViewRestores"
+    if sim_fixed and facts["view_policy"] != "ViewUnknown":
         facts["sim_shape"] = "true"
     # workers
     pw = _norm_fn(trees["scan.py"], "_protocol_worker")
@@ -189,7 +203,68 @@ def extract_facts() -> dict[str, Any]:
     else:
         workers_ok = False
     facts["workers_shape"] = "true" if workers_ok else "false"
+    facts["row_update"] = _row_update_policy()
     return facts
+
+
+def _row_update_policy() -> str:
+    """How the two update calls of a scan task treat the model's `_cache` (read structurally from model.py, tolerant of
+    validation prefixes and of what the single-item mutators do otherwise):
+      RowInvalidatesPerItem  `update_variables` / `update_parameters` are undecorated loops `for k, v in <arg>.items()` whose
+                             only `self.<method>` calls are `self.update_variable` / `self.update_parameter`, and those two
+                             carry `@_invalidate_cache` (an EMPTY dict leaves the cache alone, any item drops it);
+      RowInvalidatesAlways   the two batch mutators carry `@_invalidate_cache` themselves;
+    where `_invalidate_cache`'s wrapper executes `self._cache = None` before calling the method.  Anything else: RowUnknown."""
+    try:
+        tree = ast.parse((common.REPO / "src/mxlpy/model.py").read_text())
+    except (OSError, SyntaxError):
+        return "RowUnknown"
+    deco = next((n for n in tree.body if isinstance(n, ast.FunctionDef) and n.name == "_invalidate_cache"), None)
+    model = next((n for n in tree.body if isinstance(n, ast.ClassDef) and n.name == "Model"), None)
+    if deco is None or model is None:
+        return "RowUnknown"
+    wrapper = next((n for n in deco.body if isinstance(n, ast.FunctionDef)), None)
+    if wrapper is None or not isinstance(deco.body[-1], ast.Return) or ast.unparse(deco.body[-1].value) != wrapper.name:
+        return "RowUnknown"
+    wl = [ast.unparse(st) for st in wrapper.body]
+    if "self._cache = None" not in wl or not wl[-1].startswith("return method(") or wl.index("self._cache = None") != len(wl) - 2:
+        return "RowUnknown"
+    if not any(st.startswith("self = ") and "args[0]" in st for st in wl):
+        return "RowUnknown"
+    meths = {n.name: n for n in model.body if isinstance(n, ast.FunctionDef)}
+
+    def decorated(name: str) -> bool:
+        return name in meths and any(isinstance(d, ast.Name) and d.id == "_invalidate_cache" for d in meths[name].decorator_list)
+
+    def loops_over_items(batch: str, single: str, arg: str) -> bool:
+        fn = meths.get(batch)
+        if fn is None or fn.decorator_list:
+            return False
+        loops = [n for n in ast.walk(fn) if isinstance(n, ast.For)]  # also inside a try block (a rollback wrapper)
+        if len(loops) != 1 or ast.unparse(loops[0].iter) != f"{arg}.items()" or ast.unparse(loops[0].target) != "(k, v)":
+            return False
+        if any(isinstance(n, (ast.Break, ast.Continue, ast.Return)) for n in ast.walk(loops[0])):
+            return False
+        # every path through the loop body calls the single-item mutator on k: the body is that call, or an if/else of such calls
+        def calls_single(stmts: list) -> bool:
+            if len(stmts) != 1:
+                return False
+            st = stmts[0]
+            if isinstance(st, ast.If):
+                return calls_single(st.body) and calls_single(st.orelse)
+            return (isinstance(st, ast.Expr) and isinstance(st.value, ast.Call) and ast.unparse(st.value.func) == f"self.{single}"
+                    and bool(st.value.args) and ast.unparse(st.value.args[0]) == "k")
+        if not calls_single(loops[0].body):
+            return False
+        return isinstance(fn.body[-1], ast.Return)
+
+    if decorated("update_variables") and decorated("update_parameters"):
+        return "RowInvalidatesAlways"
+    if (decorated("update_variable") and decorated("update_parameter")
+            and loops_over_items("update_variables", "update_variable", "variables")
+            and loops_over_items("update_parameters", "update_parameter", "parameters")):
+        return "RowInvalidatesPerItem"
+    return "RowUnknown"
 
 
 # (file, function, name of its table argument, constructor of ScanModel.ep_name)
@@ -287,6 +362,8 @@ def gen() -> dict[str, Any]:
         f"Definition gen_scan_facts : scan_facts := mkScanFacts {f['copies']} {f['update_shape']} {f['pool_shape']} "
         f"{f['containers']} {f['sim_shape']} {f['workers_shape']} {f['protocol_axis']} {f['tc_axis']} {f['ptc_axis']} {f['dups']}.\n"
         f"Definition gen_entry_points : list entry_point :=\n  [ {eps} ].\n"
+        f"Definition gen_view_policy : view_policy := {f['view_policy']}.\n"
+        f"Definition gen_row_update : row_update := {f['row_update']}.\n"
     )
     common.write_if_changed(common.area_dir(AREA) / "GenScanFacts.v", text)
     return f
@@ -430,6 +507,55 @@ def decorate_case(c: dict, rng2) -> dict:
     return c
 
 
+WARM_KINDS = ("ic", "args", "simulator", "simulated")
+
+
+def decorate_warm(c: dict, rng3) -> dict:
+    """Third-round input dimension, drawn from its OWN stream: the model OBJECT handed to the scan has been inspected or
+    simulated since it was built (it carries a ModelCache computed from the base content).  The property does not depend on the
+    history of the object: the reference stays a separate run of a FRESH model with the row's values."""
+    c = dict(c)
+    if rng3.random() < 0.45:
+        c["warm"] = rng3.choice(WARM_KINDS)
+    return c
+
+
+def warm_up(model, how: str | None) -> bool:
+    """Use the model as one does before scanning; -> whether it now carries a cache.  A model that cannot be evaluated at t=0
+    raises here and stays without cache (the Coq model: `warm m = ensure (m, None)`)."""
+    if how is None:
+        return False
+    import numpy as np
+
+    from mxlpy import Simulator
+
+    from harness.c09_integ import ExactEuler
+
+    def go():
+        if how == "ic":
+            model.get_initial_conditions()
+        elif how == "args":
+            model.get_args()
+        elif how == "simulator":
+            Simulator(model, integrator=ExactEuler)
+        elif how == "simulated":
+            Simulator(model, integrator=ExactEuler).simulate_time_course(np.array([0.0, 1.0])).get_result()
+        elif how == "simulated-scipy":
+            Simulator(model).simulate(1.0).get_result()
+            model.get_initial_conditions()
+        else:
+            raise ValueError(how)
+
+    try:
+        with contextlib.redirect_stderr(io.StringIO()):
+            _with_timeout(go, 30)
+    except _Timeout:
+        raise
+    except Exception:  # noqa: BLE001
+        pass
+    return model._cache is not None  # noqa: SLF001
+
+
 def build_model(spec: dict, override: dict[int, int] | None = None):
     """The model described by spec; `override` replaces values (a FRESH model with exactly a row's values)."""
     from mxlpy import InitialAssignment, Model
@@ -520,6 +646,10 @@ def run_scan(case: dict, mode: list, api: str = "scan", integrator: str = "euler
 
     integ = ExactEuler if integrator == "euler" else None
     model = build_model(case["spec"])
+    try:
+        warm_up(model, case.get("warm"))
+    except _Timeout:
+        return {"raises": "Timeout"}
     tab = make_table(case)
     tps = np.array(case["tps"], dtype=float)
     y0 = {sname(k): float(v) for k, v in case["y0"]} if case.get("y0") is not None else None
@@ -791,7 +921,8 @@ def judge(case: dict, got: dict) -> tuple[str | None, str | None]:
                 if env.get(k) != v:
                     return (
                         f"row {i} (label {lab if kind == 'tc' else labels[i]}) t={t}: {c} = {v}, a separate simulation of a fresh model with "
-                        f"{'y0 ' + str(case['y0']) + ' and ' if case.get('y0') else ''}this row's values gives {env.get(k)}",
+                        f"{'y0 ' + str(case['y0']) + ' and ' if case.get('y0') else ''}this row's values gives {env.get(k)}"
+                        + (f" (the model handed to the scan had been used before: {case['warm']})" if case.get("warm") else ""),
                         None,
                     )
     return None, known
@@ -866,16 +997,17 @@ def coq_case(case: dict, mode: list, got: dict, rng, api: str = "scan") -> str:
         (api, case["kind"])
     ]
     y0 = "None" if case.get("y0") is None else "(Some " + clist(f"({cn(k)}, {zc(v)})" for k, v in case["y0"]) + ")"
-    return f"mkCase {coq_mdl(case['spec'])} {w} {coq_mode(mode, len(case['rows']), rng)} {rows} {coq_obs(case, got)} {ep} {y0}"
+    warm = "true" if case.get("warm") else "false"
+    return f"mkCase {coq_mdl(case['spec'])} {w} {coq_mode(mode, len(case['rows']), rng)} {rows} {coq_obs(case, got)} {ep} {y0} {warm}"
 
 
 def corr_file(cases: list[str]) -> str:
     body = ";\n  ".join(cases)
     return (
-        "From Coq Require Import List ZArith NArith.\nFrom Scan Require Import ScanGeneric ScanModel ScanY0 GenScanFacts ScanCorr.\n"
+        "From Coq Require Import List ZArith NArith.\nFrom Scan Require Import ScanGeneric ScanModel ScanY0 ScanWarm GenScanFacts ScanCorr.\n"
         "Import ListNotations.\nOpen Scope Z_scope.\n"
         "Definition cases : list case := [\n  " + body + "\n].\n"
-        "Eval vm_compute in mismatches gen_scan_facts gen_entry_points cases.\n"
+        "Eval vm_compute in mismatches3 gen_scan_facts gen_entry_points gen_row_update gen_view_policy cases.\n"
     )
 
 
@@ -938,8 +1070,9 @@ def sweep_model(stale: bool):
     return m
 
 
-def sweep_run(kind: str, stale: bool, tab_spec: dict, mode: list, integrator: str) -> dict:
-    """One real scan of `kind`; returns the bit patterns of .variables / .fluxes (or the exception)."""
+def sweep_run(kind: str, stale: bool, tab_spec: dict, mode: list, integrator: str, warm: str | None = None) -> dict:
+    """One real scan of `kind`; returns the bit patterns of .variables / .fluxes (or the exception).
+    `warm`: the model object is used (simulated / inspected) before it is handed to the scan."""
     import multiprocessing
 
     import numpy as np
@@ -952,6 +1085,10 @@ def sweep_run(kind: str, stale: bool, tab_spec: dict, mode: list, integrator: st
     integ = ExactEuler if integrator == "euler" else None
     tab = pd.DataFrame(tab_spec["data"], index=tab_spec.get("index"))
     model = sweep_model(stale)
+    try:
+        warm_up(model, warm)
+    except _Timeout:
+        return {"raises": "Timeout"}
     proto = make_protocol([(2.0, {"q": 1.0}), (2.0, {"q": 2.0})])
     tps = np.array([0.0, 1.0, 2.0, 3.0])
     par = mode[0] == "par"
@@ -1111,6 +1248,22 @@ SS_DUP_WITNESS = {"spec": _DECAY_SPEC, "kind": "ss", "tps": [0, 1], "cols": [20]
                   "labels": [0, 1, 2, 0, 1], "flavour": "decay"}
 
 
+# third round (seeded change C09-8): a model object that was used before the scan (warm cache), a table over initial values only,
+# something computed from the initial values (stale-assignment model: trajectory; follow model: steady state; an assigned
+# initial value of a second variable)
+WARM_TC_WITNESS = STALE_WITNESS | {"warm": "ic"}
+WARM_SS_WITNESS = {"spec": _FOLLOW_SPEC, "kind": "ss", "tps": [0, 1], "cols": [10], "rows": [[1], [2], [3]], "labels": [0, 1, 2],
+                   "flavour": "decay", "warm": "simulated"}
+_IAVAR_SPEC = {"vars": [[10, ["P", 1]], [11, ["IA", 0, [10]]]], "pars": [[20, ["P", 1]]], "der": [],
+               "rxn": [[40, 3, [11, 20], [[10, -1]]]]}
+WARM_IAVAR_WITNESS = {"spec": _IAVAR_SPEC, "kind": "tc", "tps": [0, 1, 2], "cols": [10], "rows": [[3], [2], [1]], "labels": [7, 3, 5],
+                      "flavour": "ia", "warm": "simulator"}
+# ... the same object with a y0 argument (update_variables drops the cache) and with a parameter column next to the initial value
+WARM_Y0_WITNESS = Y0_OVERLAP_WITNESS | {"warm": "args"}
+WARM_PAR_WITNESS = {"spec": _CAP_SPEC, "kind": "tc", "tps": [0, 1], "cols": [10, 20], "rows": [[1, 2], [2, 1], [4, 3]], "labels": [0, 1, 2],
+                    "flavour": "ia", "warm": "simulated"}
+
+
 def check(run: Run) -> None:
     thorough = run.tier == "thorough"
     facts = gen()
@@ -1161,7 +1314,7 @@ def check(run: Run) -> None:
     ]
 
     rng = common.rng_for(run.seed, "c09")
-    n_cases = 720 if thorough else 185
+    n_cases = 735 if thorough else 200
     par_budget = 220 if thorough else 45
     cases: list[tuple[dict, list, str]] = []
     # corpus first: the stale-assignment witness in every mode
@@ -1170,7 +1323,11 @@ def check(run: Run) -> None:
     for wit in (TC_T0_WITNESS, TC_T0_WITNESS2, DUP_WITNESS, Y0_OVERLAP_WITNESS, Y0_IA_WITNESS, Y0_SS_WITNESS, SS_DUP_WITNESS):
         for mode, api in ((["seq"], "scan"), (["par", 2], "scan"), (["par", 3], "mc")):
             cases.append((wit, mode, api))
+    for wit in (WARM_TC_WITNESS, WARM_SS_WITNESS, WARM_IAVAR_WITNESS, WARM_Y0_WITNESS, WARM_PAR_WITNESS):
+        for mode, api in ((["seq"], "scan"), (["par", 2], "scan"), (["par", 3], "mc")):
+            cases.append((wit, mode, api))
     rng2 = common.rng_for(run.seed, "c09-round2")
+    rng3 = common.rng_for(run.seed, "c09-round3")
     discarded = {"order": 0, "inexact": 0}
     tries = 0
     while len(cases) < n_cases and tries < 5 * n_cases:
@@ -1180,6 +1337,7 @@ def check(run: Run) -> None:
             discarded["order"] += 1
             continue
         c = decorate_case(c, rng2)
+        c = decorate_warm(c, rng3)
         modes: list[tuple[list, str]] = [(["seq"], "scan")]
         if par_budget > 0 and rng.random() < 0.45:
             par_budget -= 1
@@ -1208,6 +1366,15 @@ def check(run: Run) -> None:
                     dist[tag] = dist.get(tag, 0) + 1
         if c["kind"] == "ss" and len(set(c["labels"])) != len(c["labels"]):
             dist["ss:duplicate-labels"] = dist.get("ss:duplicate-labels", 0) + 1
+        if c.get("warm"):
+            vnames = {v[0] for v in c["spec"]["vars"]}
+            pnames = {q[0] for q in c["spec"]["pars"]}
+            reads_var = any(v[0] == "IA" and set(v[2]) & vnames for _n, v in c["spec"]["vars"] + c["spec"]["pars"])
+            only_vars = bool(set(c["cols"]) & vnames) and not set(c["cols"]) & pnames
+            for tag, hit in (("warm", True), ("warm:" + c["warm"], True), ("warm:initial-value-columns-only", only_vars),
+                             ("warm:initial-value-columns-only+assignment-reads-variable+no-y0", only_vars and reads_var and c.get("y0") is None)):
+                if hit:
+                    dist[tag] = dist.get(tag, 0) + 1
         try:
             exp_kinds = [oracle_row(c["spec"], c["cols"], r, c["kind"], c["tps"], c.get("y0"))[0] for r in c["rows"]]
             viol, known = judge(c, got)
@@ -1678,6 +1845,7 @@ def _sweep(run: Run, thorough: bool, rng) -> None:
         "mc.scan_steady_state": {"data": {"x": [1.0, 2.0]}, "inner_index": [0, 1, 0]},
     }
     n = 0
+    n_warm = 0
     viol = 0
     for kind in kinds:
         for ti, tab in enumerate(tables + ([dup_tables[kind]] if kind in dup_tables else [])):
@@ -1693,18 +1861,27 @@ def _sweep(run: Run, thorough: bool, rng) -> None:
                         modes = [["par", 1], ["par", 3]] + ([["par", 2], ["par", 16]] if thorough else [])
                     else:
                         modes = [["seq"], ["par", 2]] + ([["par", 1], ["par", 3], ["par", 16]] if thorough else [])
+                    # third round: the same scan with a model object that was used before (warm cache); tables over the initial
+                    # value only (ti == 0) on the model whose parameter is assigned from it are the shape of seeded change C09-8
+                    warms: list[str | None] = [None]
+                    if stale and not is_dup and (ti == 0 or thorough):
+                        warms.append("simulated-scipy" if integ == "scipy" else "simulated")
                     for mode in modes:
-                        got = sweep_run(kind, stale, tab, mode, integ)
-                        n += 1
-                        run.count_case(("sweep", kind, ti, stale, integ, tuple(mode)))
-                        bad = sweep_compare(kind, got, indep)
-                        if bad and viol < 3:
-                            viol += 1
-                            run.violation(
-                                f"{kind} {mode} integrator={integ}: {bad}",
-                                {"kind": "sweep", "scan": kind, "stale_model": stale, "table": tab, "mode": mode, "integrator": integ},
-                            )
+                        for warm in warms:
+                            got = sweep_run(kind, stale, tab, mode, integ, warm)
+                            n += 1
+                            n_warm += warm is not None
+                            run.count_case(("sweep", kind, ti, stale, integ, tuple(mode), warm))
+                            bad = sweep_compare(kind, got, indep)
+                            if bad and viol < 3:
+                                viol += 1
+                                run.violation(
+                                    f"{kind} {mode} integrator={integ}{' on a model that was simulated before the scan' if warm else ''}: {bad}",
+                                    {"kind": "sweep", "scan": kind, "stale_model": stale, "table": tab, "mode": mode, "integrator": integ,
+                                     "warm": warm},
+                                )
     run.coverage["schedule_sweep_runs"] = n
+    run.coverage["schedule_sweep_runs_on_a_used_model"] = n_warm
 
 
 def replay(rep: dict) -> int:
@@ -1719,7 +1896,7 @@ def replay(rep: dict) -> int:
         return 1 if viol else 0
     if k == "sweep":
         indep = sweep_independent(r["scan"], r["stale_model"], r["table"], r["integrator"])
-        got = sweep_run(r["scan"], r["stale_model"], r["table"], r["mode"], r["integrator"])
+        got = sweep_run(r["scan"], r["stale_model"], r["table"], r["mode"], r["integrator"], r.get("warm"))
         bad = sweep_compare(r["scan"], got, indep)
         print("oracle:", bad or "property holds on this input")
         return 1 if bad else 0
